@@ -33,6 +33,7 @@ MACRO_FRAGS = [
     "%cmpres(", "%bquote(", "%nrbquote(", "%quote(", "%nrquote(", "%superq(", "%unquote(",
     "%symexist(", "%sysget(", "%datatyp(", "%compstor(", "%validchs(", "%verify(", "%kverify(",
     "%sysmexecdepth", "%sysmexecname(", "%sysprod(", "%m", "%m(", "%mac2", "%mac2(", "%lbl:",
+    "&v&&&w", "&&v&&&&&i.", "&v&&&&&&&w", "&&&v&&&w..", "&a&&b&&&c", "&&&&&&&v", "&&&&&v&&&x",
     "%lbl :", "%*", "%* c;", "&v", "&&v", "&&&v", "&v.", "&v..", "&&v&i", "&&v&i..", "&", "%'",
     "%\"", "%%", "%(", "%)", "%=", "%~", "%^", "%~=", "readonly", "/ ", "a=", "=1", ",b", "%e",
     "%\u00f1", "%LET", "%Do", "%EVAL(", "%Str(", "%str", "%eval", "%scan", "%sysfunc",
